@@ -14,11 +14,15 @@ SPEC = dict(
              'leaves are the map in key order (c10_canonical); that two canonical trees with the same leaves are the same cell (c10_unique); and '
              'that parse_hashmap / HashMap.parse / from_cell / parse_hashmap_aug decode EVERY spec-valid Hashmap / HashmapAug tree, whatever '
              'label constructors it uses and with any edges replaced by pruned branches, returning exactly the leaves (and extras, in '
-             'left/right/own order) of the non-pruned part (c10_parse_any*).',
+             'left/right/own order) of the non-pruned part (c10_parse_any*). Conversely (repaired defect: hashmap.tlb {n <= m} was not '
+             'enforced) deserialize_hml returns the bit pattern of a label constructor iff the label is not longer than the remaining key - the '
+             'accepted patterns are exactly the spec encodings (c10_label_accepted_iff) - so a cell whose label announces more bits than remain '
+             'makes every parser entry point raise, at the root, below forks, and a parse that returns has met only fitting labels at every '
+             'depth (c10_label_too_long_rejected, c10_label_too_long_below_fork, c10_parse_labels_fit); a negative key length is refused.',
         level_note='Trusted: Lean kernel (propext, Classical.choice, Quot.sound); Spec/Hashmap.lean as the transcription of hashmap.tlb and of '
                    'append_dict_label; Model/Hashmap.lean as a hand transcription of utils.py/parse.py (tied by sampled differential correspondence: '
                    'every (len,max,same) with max<=40 (<=64 thorough), tie-break boundaries for max up to 1023, random valid non-canonical trees '
-                   'with Merkle prunings through 8 parser entry points); the 200-line Python->Lean translator for the label functions; '
+                   'with Merkle prunings through 8 parser entry points; over-long labels of every constructor at depth 0-4 must raise); the 200-line Python->Lean translator for the label functions; '
                    'that the hash equals the on-chain one rests on c10_canonical + c10_unique + Spec/Hashmap.lean being the reference format, on C01 (cell hash), and is cross-checked on samples against an independent Python transcription of dict.cpp.',
         technique='Lean 4 proof (label functions translated from source, hand model for tree/parse) + differential correspondence + independent reference serialiser',
     ),
@@ -28,6 +32,8 @@ SPEC = dict(
          'reference serialiser, all triples with max<=40/64 and boundary lens for every max<=1023 (sampled in quick); (b) spec-valid trees built by an '
          'independent encoder with a random admissible constructor on every edge, optional augmentation and random Merkle-pruned subtrees, fed to '
          'parse_hashmap, HashMap.parse, from_cell, load_dict, load_hashmap, parse_hashmap_aug, load_hashmap_aug, load_hashmap_aug_e; '
+         '(c) cells whose edge label (hml_short / hml_long / hml_same) announces more bits than the key has left, as the root edge or below 1-4 '
+         'well-formed forks, key lengths 1..256, plain and augmented: all 7 entry points must raise and the model must answer err; '
          'distinct = distinct (tree, constructors, prunings); non-trivial = at least one leaf',
     trusted_base=['Spec/Hashmap.lean transcribes hashmap.tlb + dict.cpp label choice', 'Model/Hashmap.lean mirrors utils.py/parse.py by hand',
                   'harness/translate/labelfns.py', 'harness/gen/maps.py: independent reference serialiser and tree encoder'],
@@ -334,9 +340,121 @@ def tree_cases(ctx):
         tree_case(ctx, n, items, rng.choice([1, 4, 32]), rng.choice([0.0, 0.0, 0.15, 0.4]), base, f'xtree{t}', canonical=rng.random() < 0.1, xref=True)
 
 
+# ----------------------------------------------------------------------------- (c) labels longer than the remaining key: refused
+
+LIB_CELL = (2, G.bytes_to_bits(bytes([2]) + bytes(range(32))), ())       # a library cell: where a pre-repair parser would have stopped quietly
+
+
+def over_pattern(kind, length, m, rng):
+    """bit pattern of constructor `kind` announcing `length` > m bits under bound m (None if the `#<= m` field cannot hold it)"""
+    if kind == 's':
+        return '0' + '1' * length + '0' + G.rand_bits(rng, length)
+    if length >= (1 << m.bit_length()):
+        return None
+    field = format(length, 'b').zfill(m.bit_length())
+    if kind == 'l':
+        return '10' + field + G.rand_bits(rng, length)
+    return '11' + rng.choice('01') + field
+
+
+def overlong_case(ctx, n, kind, length, path, ybits, seed_bits, tag):
+    """A dictionary cell of key length n: `path` = the fork labels above the bad edge with the side it hangs on ([(label, 'l'|'r')],
+    [] = the bad edge is the root), every other child a well-formed leaf.  The bad edge announces `length` bits although only
+    m = n - sum(|label| + 1) remain.  Every parser entry point must RAISE (hashmap.tlb {n <= m}); the model must answer err."""
+    import random as _r
+    HashMap, parse_hashmap, parse_hashmap_aug, Builder, Cell = _lib()
+    rng = _r.Random(seed_bits)
+    m = n - sum(len(lab) + 1 for lab, _ in path)
+    inp = {'kind': 'overlong', 'n': n, 'ctor': kind, 'length': length, 'path': [list(p) for p in path], 'ybits': ybits, 'seed_bits': seed_bits, 'tag': tag}
+    pat = over_pattern(kind, length, m, rng) if m >= 0 and length > m else None
+    if pat is None:
+        ctx.count('overlong:not-expressible')
+        return
+    extra = lambda: G.rand_bits(rng, ybits)
+    nodes = [LIB_CELL]
+    # the bad edge: label, then (aug: its fork extra), two references to a library cell (a pre-repair parser ends there quietly)
+    nodes.append((-1, pat + extra() + '1', (0, 0)))
+    cur, rem = 1, m
+    for lab, side in reversed(path):
+        # sibling: a well-formed leaf at remaining length `rem`
+        ls = G.rand_bits(rng, rem)
+        lk = 's' if rem <= 100 else 'l'
+        nodes.append((-1, M.enc_label(ls, rem, lk) + extra() + '101', ()))
+        sib = len(nodes) - 1
+        rem = rem + 1 + len(lab)
+        fk = rng.choice('sl') if lab else rng.choice('slm')
+        kids = (cur, sib) if side == 'l' else (sib, cur)
+        nodes.append((-1, M.enc_label(lab, rem, fk) + extra(), kids))
+        cur = len(nodes) - 1
+    assert rem == n
+    root = cur
+    cells = G.lib_build(nodes, 'ctor')
+    if cells[root] is None:
+        ctx.count('overlong:invalid-cell')
+        return
+    rc = cells[root]
+    ctx.case(('overlong', n, kind, length, tuple(map(tuple, path)), ybits, seed_bits), nontrivial=True,
+             sample={'n': n, 'ctor': kind, 'length': length, 'remaining': m, 'depth': len(path), 'aug': ybits})
+    ctx.count(f'overlong:{kind}:depth{min(len(path), 3)}:' + ('aug' if ybits else 'plain'))
+    dag = G.dag_line(nodes)[8:]
+
+    def refused(name, f, mode, node=root, dag=dag):
+        got = call(f)
+        ctx.count('overlong-parser:' + name)
+        if not is_err(got):
+            shown = 'None' if got is None else (f'{len(got[0])} entries, {len(got[1])} extras' if isinstance(got, tuple) else f'{len(got)} entries')
+            ctx.fail(f'label-too-long:{name}', f'{name} returned although an edge label ({dict(s="hml_short", l="hml_long", m="hml_same")[kind]}) '
+                     f'announces {length} bits with {m} key bits remaining ({len(path)} fork(s) below the root): hashmap.tlb requires n <= m',
+                     inp, shown, 'an exception')
+            return
+        ctx.expect_model(f'hmparse {dag} {node} {n} {mode}', 'err', tag + ':' + name)
+
+    if ybits == 0:
+        cont = Builder().store_bit(1).store_ref(rc).end_cell()
+        dag2, cnode = dag + f'|-1,1,{root}', len(nodes)
+        refused('parse_hashmap', lambda: parse_hashmap(rc.begin_parse(), n), 'p')
+        refused('HashMap.parse', lambda: HashMap.parse(rc.begin_parse(), n), 'h')
+        refused('from_cell', lambda: HashMap.from_cell(rc, n).map, 'f')
+        refused('load_dict', lambda: cont.begin_parse().load_dict(n), 'ld', cnode, dag2)
+    else:
+        y = lambda sl: sl.load_uint(ybits)
+        x = lambda sl: slice_tok(sl)
+        te = G.rand_bits(rng, ybits)
+        cont = Builder().store_bit(1).store_ref(rc).store_bits(te).end_cell()
+        dag2, cnode = dag + f'|-1,1{te},{root}', len(nodes)
+        refused('parse_hashmap_aug', lambda: parse_hashmap_aug(rc.begin_parse(), n, x, y), f'aug:{ybits}')
+        refused('load_hashmap_aug', lambda: rc.begin_parse().load_hashmap_aug(n, x, y), f'aug:{ybits}')
+        refused('load_hashmap_aug_e', lambda: cont.begin_parse().load_hashmap_aug_e(n, x, y), f'auge:{ybits}', cnode, dag2)
+
+
+def overlong_cases(ctx):
+    rng = ctx.rng
+    t = 0
+    for n in (1, 2, 3, 5, 6, 8, 12, 16, 32, 64, 256):
+        paths = [[]]
+        if n >= 2:
+            paths += [[('', 'l')], [('', 'r')], [(G.rand_bits(rng, min(n - 1, 2)), rng.choice('lr'))]]
+        if n >= 4:
+            paths += [[('', 'r'), ('', 'l')], [(G.rand_bits(rng, 1), 'l'), (G.rand_bits(rng, rng.randrange(0, min(n - 3, 5))), 'r')]]
+        if n >= 12:
+            paths.append([(G.rand_bits(rng, rng.randrange(0, 3)), rng.choice('lr')) for _ in range(4)])
+        for path in paths:
+            m = n - sum(len(lab) + 1 for lab, _ in path)
+            top = (1 << m.bit_length()) - 1
+            for kind in 'slm':
+                lens = {m + 1, m + 2, m + rng.randrange(1, 12)} if kind == 's' else {m + 1, top, rng.randrange(m + 1, top + 1) if top > m else m + 1}
+                for length in sorted(lens):
+                    if kind == 's' and 2 + 2 * length > 900:
+                        continue
+                    for ybits in (0, rng.choice([1, 3, 8])):
+                        t += 1
+                        overlong_case(ctx, n, kind, length, path, ybits, rng.getrandbits(32), f'overlong{t}')
+
+
 def run(ctx):
     label_cases(ctx)
     tree_cases(ctx)
+    overlong_cases(ctx)
 
 
 def replay(ctx, payload):
@@ -345,6 +463,8 @@ def replay(ctx, payload):
         canon_case(ctx, inp['n'], [int(k) for k in inp['keys']], inp['vbits'], inp.get('tag', 'replay'))
     elif inp.get('kind') == 'tree':
         replay_tree(ctx, inp)
+    elif inp.get('kind') == 'overlong':
+        overlong_case(ctx, inp['n'], inp['ctor'], inp['length'], [tuple(p) for p in inp['path']], inp['ybits'], inp['seed_bits'], inp.get('tag', 'replay'))
 
 
 def replay_tree(ctx, inp):
